@@ -1370,3 +1370,76 @@ def assume_valid_fresh(check: Check, repo: Repo, rule: str = "ASSUME-VALID-FRESH
         foreign = sorted(names - {"assume_valid"}) + [unparse(x)[:40] for x in ast.walk(e) if isinstance(x, (ast.Subscript, ast.Attribute))]
         check.ob(rule, e0, f"{qualname_of(e0)}: assume_valid={unparse(e0)[:50]}", not foreign,
                  "the caller's own flag" if not foreign else f"also depends on {foreign}: the flag of the extended schema is inherited")
+
+
+THUNK_KEYS = {"fields", "interfaces", "types"}
+THUNK_MODULES = ("utilities.extend_schema", "utilities.lexicographic_sort_schema", "utilities.map_schema_config", "utilities.build_client_schema")
+
+
+def lazy_thunks(check: Check, repo: Repo, rule: str = "LAZY-THUNKS") -> None:
+    from sa.loader import ancestors
+
+    check.rule(
+        rule,
+        "named types refer to each other cyclically, so the builders and transformers hand `fields`, `interfaces` and "
+        "the member `types` of a union to the type constructors as *thunks* that are run only after every type of the "
+        "new schema has been registered. In extend_schema, lexicographic_sort_schema, map_schema_config and "
+        "build_client_schema: (1) the value given for one of these keys of a type is a lambda or a local def; (2) a thunk "
+        "of the old configuration (`config['fields']()` ...) is invoked only inside such a deferred body; (3) nothing a "
+        "thunk uses was computed eagerly by one of the enclosing function's `build_*` helpers (which resolve type "
+        "references). An eager evaluation resolves names while the type map is still being filled: sorting or extending a "
+        "valid schema then fails with 'Unknown type' for some definition orders and works for others",
+    )
+    n = 0
+    for mn in THUNK_MODULES:
+        mod = repo.mod(mn)
+        # (1)
+        for c in ast.walk(mod.tree):
+            pairs: list[tuple[str, ast.AST]] = []
+            keys: set[str] = set()
+            if isinstance(c, ast.Call):
+                pairs = [(kw.arg, kw.value) for kw in c.keywords if kw.arg]
+            elif isinstance(c, ast.Dict):
+                pairs = [(k.value, v) for k, v in zip(c.keys, c.values) if isinstance(k, ast.Constant) and isinstance(k.value, str)]
+            keys = {k for k, _ in pairs}
+            if keys & {"query", "directives", "mutation", "subscription"}:
+                continue  # the kwargs of a schema: its `types` is a plain collection
+            for k, v in pairs:
+                if k not in THUNK_KEYS:
+                    continue
+                n += 1
+                fn = enclosing_function(c)
+                deferred = isinstance(v, ast.Lambda)
+                if isinstance(v, ast.Name) and fn is not None:
+                    deferred = any((isinstance(s, ast.FunctionDef) and s.name == v.id) or (
+                        isinstance(s, ast.Assign) and isinstance(s.value, ast.Lambda) and any(isinstance(t, ast.Name) and t.id == v.id for t in s.targets))
+                        for s in ast.walk(fn))
+                    deferred = deferred or v.id in {a.arg for a in getattr(fn, "args", ast.arguments(posonlyargs=[], args=[], kwonlyargs=[], kw_defaults=[], defaults=[])).args}
+                check.ob(rule, v, f"{qualname_of(c)[-60:]}: {k}={unparse(v)[:40]}", deferred,
+                         "a thunk" if deferred else "evaluated on the spot: type references are resolved before all types are registered")
+        # (2)
+        for c in ast.walk(mod.tree):
+            if isinstance(c, ast.Call) and isinstance(c.func, ast.Subscript) and isinstance(c.func.slice, ast.Constant) and c.func.slice.value in THUNK_KEYS:
+                n += 1
+                inside = any(isinstance(a, ast.Lambda) for a in ancestors(c)) or sum(isinstance(a, (ast.FunctionDef, ast.Lambda)) for a in ancestors(c)) >= 3 and any(
+                    isinstance(a, ast.FunctionDef) and a.name in ("fields", "interfaces", "types") for a in ancestors(c))
+                check.ob(rule, c, f"{qualname_of(c)[-60:]}: {unparse(c)}", inside,
+                         "invoked inside a deferred body" if inside else "an old thunk is run while the new types are still being created")
+        # (3)
+        for fn in mod.functions():
+            if isinstance(fn, ast.Lambda):
+                continue
+            lambdas = [l for l in walk_body(fn) if isinstance(l, ast.Lambda) and any(
+                (isinstance(p_, ast.keyword) and p_.arg in THUNK_KEYS) for p_ in [parent(l)])]
+            if not lambdas:
+                continue
+            eager = {t.id: s for s in fn.body if isinstance(s, ast.Assign) and isinstance(s.value, ast.Call) and call_name(s.value).startswith("build_")
+                     for t in s.targets if isinstance(t, ast.Name)}
+            for l in lambdas:
+                used = sorted({x.id for x in ast.walk(l.body) if isinstance(x, ast.Name) and x.id in eager})
+                n += 1
+                check.ob(rule, l, f"{qualname_of(l)[-60:]}: thunk for `{parent(l).arg}`", not used,
+                         "everything it needs is computed when it runs" if not used else
+                         f"uses {used}, computed eagerly by `{unparse(eager[used[0]].value)[:50]}` (line {eager[used[0]].lineno}) before the thunk runs")
+    if n < 30:
+        raise AnalysisError(f"LAZY-THUNKS: only {n} sites found")
